@@ -51,6 +51,10 @@ def run(ck):
     traces = run_pack_groups(ck, groups, {"C04"}, "C04 minimum number of bins", chunk=600)
     # beyond the oracle: planted perfect packings of 10-14 items (TLC checks the certificate: OPT = number of planted bins)
     big = gen.planted_small_packings(ck.rng, 25000 if q else 100000)
+    # ... and of 16-20 items (5-6 planted bins): an implementation may treat "large" inputs differently (a reduction, a cap on the search)
+    big16 = gen.planted_small_packings(ck.rng, 6000 if q else 40000, bins=(5, 5, 6), minitems=16, maxitems=20)
+    ck.cat("planted_perfect_packings_16_to_20_items", len(big16))
+    big += big16
     for g in big:
         g["calls"] = [pcall("bc", "list")]; g["orc"] = 0
     from .. import drive as _drive
@@ -59,7 +63,7 @@ def run(ck):
         ck.evaluations += len(t["res"]); ck.nontrivial.add(key_pack(t))
         t["res"] = [r for r in t["res"] if r["out"] != "timeout"]
     ck.cat("planted_perfect_packings_10_to_14_items", len(tb))
-    fb = ck.judge("JCertPack", tb, {"C04"}, what="C04 on planted perfect packings of 10-14 items (certified optimum)", chunk=6000)
+    fb = ck.judge("JCertPack", tb, {"C04"}, what="C04 on planted perfect packings of 10-14 and 16-20 items (certified optimum)", chunk=6000)
     ck.classify(fb, lambda fl: {"alg": "bc", "vals": fl["trace"]["vals"], "C": fl["trace"]["C"], "planted_bins": len(fl["trace"]["cert"]),
                                 "lists": fl["trace"]["res"][fl["e"] - 1]["lists"] if fl["e"] else None})
     for t in traces:
